@@ -47,3 +47,21 @@ def split_offset(parts, i):
 
 
 split_part = split_offset
+
+
+def _pattern(name):
+    import chameleon.utils as u
+    return getattr(u, name)
+
+
+def re_nomatch(name, how, s):
+    return getattr(_pattern(name), how)(s) is None
+
+
+def re_group(name, how, s, k):
+    m = getattr(_pattern(name), how)(s)
+    return None if m is None else m.group(k)
+
+
+def ascii_ignore(b):
+    return b.decode('ascii', 'ignore')
